@@ -119,6 +119,8 @@ def unit(u):
                 for l in v:
                     t.append('[[fn.loop]]'); t.append('index = %d' % l["index"]); t.append('ghost = "it"')
                     t.append('invariant = [%s]' % ", ".join('"""%s"""' % x for x in l["invariant"]))
+                    if l.get("body_head"):
+                        t.append('body_head = """%s"""' % l["body_head"])
             elif k == "hints":
                 for h in v:
                     t.append('[[fn.hint]]')
@@ -160,15 +162,15 @@ def unit(u):
         fn("extend", requires=["old(self).wf()", "key_model_ok()"],
            ensures=["final(self).wf()", "final(self).%s@ == dedup_append(old(self).%s@, other.%s@)" % (vec, vec, vec),
                     "final(self).%s@.to_set() == old(self).%s@.to_set() + other.%s@.to_set()" % (vec, vec, vec)],
-           loops=[dict(index=0, invariant=["self.wf()", "key_model_ok()", "%s == dedup_append(old(self).%s@, other.%s@.take(it.index@ as int))" % (V, vec, vec)])],
-           hints=[dict(before_stmt="self.add(", proof="lemma_dedup_append_step(old(self).%s@, other.%s@, it.index@ as int);" % (vec, vec))],
+           loops=[dict(index=0, invariant=["self.wf()", "key_model_ok()", "%s == dedup_append(old(self).%s@, other.%s@.take(it.index@ as int))" % (V, vec, vec)],
+                       body_head="lemma_dedup_append_step(old(self).%s@, other.%s@, it.index@ as int);" % (vec, vec))],
            tail="assert(other.%s@.take(other.%s@.len() as int) =~= other.%s@); lemma_dedup_append_set(old(self).%s@, other.%s@);" % (vec, vec, vec, vec, vec))
     if "extend_move" in fns:
         fn("extend_move", requires=["old(self).wf()", "key_model_ok()"],
            ensures=["final(self).wf()", "final(self).%s@ == dedup_append(old(self).%s@, other.%s@)" % (vec, vec, vec),
                     "final(self).%s@.to_set() == old(self).%s@.to_set() + other.%s@.to_set()" % (vec, vec, vec)],
-           loops=[dict(index=0, invariant=["self.wf()", "key_model_ok()", "%s == dedup_append(old(self).%s@, other.%s@.take(it.index@ as int))" % (V, vec, vec)])],
-           hints=[dict(before_stmt="if self.dedup.insert(", proof="lemma_dedup_append_step(old(self).%s@, other.%s@, it.index@ as int); lemma_step(%s, self.dedup@, keyhash);" % (vec, vec, V))],
+           loops=[dict(index=0, invariant=["self.wf()", "key_model_ok()", "%s == dedup_append(old(self).%s@, other.%s@.take(it.index@ as int))" % (V, vec, vec)],
+                       body_head="lemma_dedup_append_step(old(self).%s@, other.%s@, it.index@ as int); lemma_step(%s, self.dedup@, other.%s@[it.index@ as int]);" % (vec, vec, V, vec))],
            tail="assert(other.%s@.take(other.%s@.len() as int) =~= other.%s@); lemma_dedup_append_set(old(self).%s@, other.%s@);" % (vec, vec, vec, vec, vec))
     if "from_vec" in fns:
         src = open(os.path.join(os.environ.get("VERIF_REPO", "/repo"), file)).read()
@@ -179,17 +181,17 @@ def unit(u):
             loc = re.search(r"let mut (\w+) = Self::new\(\);", body).group(1)
             fn("from_vec", requires=["key_model_ok()"],
                ensures=["r.wf()", "r.%s@ == dedup_append(%s, rcs(%s@))" % (vec, E, param)],
-               loops=[dict(index=0, invariant=["%s.wf()" % loc, "key_model_ok()", "%s.%s@ == dedup_append(%s, rcs(%s@).take(it.index@ as int))" % (loc, vec, E, param)])],
-               hints=[dict(before_stmt="%s.add_move(" % loc, proof="lemma_dedup_append_step(%s, rcs(%s@), it.index@ as int);" % (E, param)),
-                      dict(before_stmt=loc, nth=-1, proof="assert(rcs(%s@).take(rcs(%s@).len() as int) =~= rcs(%s@));" % (param, param, param))])
+               loops=[dict(index=0, invariant=["%s.wf()" % loc, "key_model_ok()", "%s.%s@ == dedup_append(%s, rcs(%s@).take(it.index@ as int))" % (loc, vec, E, param)],
+                           body_head="lemma_dedup_append_step(%s, rcs(%s@), it.index@ as int);" % (E, param))],
+               hints=[dict(before_stmt=loc, nth=-1, proof="assert(rcs(%s@).take(rcs(%s@).len() as int) =~= rcs(%s@));" % (param, param, param))])
         else:
             rc = re.search(r"let (\w+) = Rc::new\(", body).group(1)
             fn("from_vec", requires=["key_model_ok()"],
                ensures=["r.wf()", "r.%s@ == dedup_append(%s, rcs(%s@))" % (vec, E, param)],
                loops=[dict(index=0, invariant=["%s@.no_duplicates()" % vec, "dedup@ == %s@.to_set()" % vec, "key_model_ok()",
-                                               "%s@ == dedup_append(%s, rcs(%s@).take(it.index@ as int))" % (vec, E, param)])],
+                                               "%s@ == dedup_append(%s, rcs(%s@).take(it.index@ as int))" % (vec, E, param)],
+                           body_head="lemma_dedup_append_step(%s, rcs(%s@), it.index@ as int); lemma_step(%s@, dedup@, rcs(%s@)[it.index@ as int]);" % (E, param, vec, param))],
                hints=[dict(before_stmt="for ", proof="assert(%s.to_set() =~= Set::<Rc<%s>>::empty());" % (E, elem)),
-                      dict(before_stmt="if dedup.insert(", proof="lemma_dedup_append_step(%s, rcs(%s@), it.index@ as int); lemma_step(%s@, dedup@, %s);" % (E, param, vec, rc)),
                       dict(before_stmt="Self::new_from_prepared_fields(", proof="assert(rcs(%s@).take(rcs(%s@).len() as int) =~= rcs(%s@));" % (param, param, param))])
     if "to_option" in fns:
         fn("to_option", ensures=["r is Some <==> %s.len() > 0" % V, "r is Some ==> r->Some_0 == *self"])
